@@ -4,6 +4,8 @@ from __future__ import annotations
 
 import ast
 
+from sa import te
+
 from sa.core import Ctx
 from sa.sm import call_kw, const_str, dotted, find_calls, norm, walk_no_nested
 
@@ -145,12 +147,30 @@ def run(ctx: Ctx):
     # ---- R08.c error discipline ---------------------------------------------------------------------
     ctx.rule("R08.c", "every except clause of the package is in the frozen table (one reason each); undefined symbols become MissingSymbolError; nothing catches CycleError / GotranxError on the load->generate path", floor=16)
     seen = set()
+    pkg_names = {g.name for g in sm.all_funcs()} | {c_.name for mod_ in sm.modules.values() for c_ in ast.walk(mod_) if isinstance(c_, ast.ClassDef)}
+
+    def can_see_model_errors(body) -> bool:
+        """A try body that neither calls package code, nor raises, nor sorts a graph, nor looks anything up can only see
+        errors of the library it calls - it cannot swallow an error about an ill-formed model."""
+        for s_ in body:
+            for x in ast.walk(s_):
+                if isinstance(x, ast.Raise) or (isinstance(x, ast.Subscript) and isinstance(x.ctx, ast.Load)):
+                    return True
+                if isinstance(x, ast.Call):
+                    tail = (dotted(x.func) or norm(x.func)).split(".")[-1]
+                    if tail in pkg_names or tail in ("static_order", "prepare", "get_ready", "done", "next", "pop", "remove", "index"):
+                        return True
+        return False
+
     for f in sm.all_funcs():
         short = f.rel.replace("src/gotranx/", "")
         if short in EXCEPT_OUT_OF_SCOPE:
             continue
         for n in walk_no_nested(f.node):
             if isinstance(n, ast.Try):
+                if not can_see_model_errors(n.body):
+                    ctx.ok("R08.c", f"{f.rel}::{f.qualname}::try-around-library-call::{norm(n.body[0])[:40]}", "the try body calls no package code, raises nothing and looks nothing up", f.where(n))
+                    continue
                 for h in n.handlers:
                     types = h.type.elts if isinstance(h.type, ast.Tuple) else [h.type]
                     for t in types:
@@ -161,8 +181,12 @@ def run(ctx: Ctx):
                         if k in seen:
                             continue
                         seen.add(k)
+                        try:
+                            reraises = all(p_.exit == "raise" for p_ in te.enumerate_paths(h.body))
+                        except Exception:
+                            reraises = False
                         ctx.check(
-                            k in EXCEPT_TABLE or (short, f.qualname) in ANY_TYPE_OK,
+                            k in EXCEPT_TABLE or (short, f.qualname) in ANY_TYPE_OK or reraises,
                             "R08.c",
                             key,
                             EXCEPT_TABLE.get(k, ""),
